@@ -739,18 +739,23 @@ def _gen_spinn(rng, kind=None, B=None):
     from harness import c11
 
     kind = kind or rng.choice(SPINN_KINDS)
-    c = GEN[kind](rng) if kind != "fisher" else _gen_fisher(rng, d=rng.choice([1, 2, 2]))
+    B = B or rng.choice([1, 1, 2, 3])
+    # (one point per axis in two space dimensions: a batch smaller than the dimension)
+    c = GEN[kind](rng) if kind != "fisher" else _gen_fisher(rng, d=2 if B == 1 else rng.choice([1, 2, 2]))
     c["flavour"] = "spinn"
     c.pop("free", None)
     time = kind in ("burgers", "fisher", "ou")
     D = (1 + len(c["x"])) if time else 2
-    B = B or rng.choice([1, 1, 2, 3])
-    R, deg = rng.choice([1, 2]), rng.choice([1, 2])
+    R, deg = rng.choice([1, 2]), 2
     exps = list(itertools.product(range(deg + 1), repeat=D))
     coefs, nets = {}, []
     for name, ps in c["nets"]:
         M = len(ps)
         coef = c11._coef(rng, D, R * M, deg)
+        for sub in coef:          # every feature is genuinely quadratic: no second derivative vanishes identically
+            for row in sub:
+                if row[2] == 0:
+                    row[2] = rng.choice([-1, 1, 2])
         coefs[name] = coef
         tw = c11._twin_coef(coef, R, M, exps)
         nets.append([name, [[[_q(Fraction(v)), list(e)] for v, e in zip(row, exps) if v != 0] for row in tw]])
@@ -1001,7 +1006,7 @@ def gen_cases(rng, tier):
     # separable networks: every built-in with a SPINN branch, one point per axis (batch < dimension) and more
     for _ in range(1 if tier == "quick" else 8):
         for kind in SPINN_KINDS:
-            for B in (1, rng.choice([2, 3])):
+            for B in (1, 1, rng.choice([2, 3])):
                 cases.append(_gen_spinn(rng, kind, B))
     if tier == "thorough":
         for c in cases[::15]:
